@@ -44,7 +44,8 @@ def arms_st(draw, kinds=("int", "str", "float"), min_size=1, max_size=5, many_ok
     kind = draw(st.sampled_from(list(kinds)))
     if many_ok and draw(st.integers(0, 29)) == 0:
         # a catalogue-sized arm list (more arms than numpy's small-count code paths cover, e.g. np.choose's 64)
-        n = draw(st.sampled_from([33, 64, 65, 70]))
+        # ... now and then hundreds of arms (a product catalogue): whatever switches to another code path by arm count
+        n = draw(st.sampled_from([33, 64, 65, 70, 33, 64, 65, 70, 520, 1030]))
         if kind == "str":
             return kind, ["item%d" % i for i in range(n)]
         if kind == "float":
@@ -109,6 +110,8 @@ def reward_family_for(lp_desc, draw, exact_only=False, allow_float_binary=True):
 # policies
 
 def binarizer_st(arms):
+    if len(arms) > 100:
+        arms = list(arms)[:6]       # hundreds of arms: thresholds for a few, the default for the rest (few draws)
     thr = st.fixed_dictionaries({
         "kind": st.just("threshold"),
         "op": st.sampled_from(["ge", "le"]),
@@ -227,6 +230,16 @@ def prob_list_st(draw, n):
         w = draw(st.lists(st.integers(1, 9), min_size=n, max_size=n))
         return [round(x / float(sum(w)), 6) for x in w]
     base = 8 if n <= 8 else 1024
+    if n > 100:
+        # hundreds of arms: a few arms share the probability mass, all others get zero (few draws)
+        k = 5
+        cuts = sorted(draw(st.lists(st.integers(0, base), min_size=k - 1, max_size=k - 1)))
+        parts = [b - a for a, b in zip([0] + cuts, cuts + [base])]
+        where = draw(st.lists(st.integers(0, n - 1), min_size=k, max_size=k, unique=True))
+        out = [0.0] * n
+        for w, q in zip(where, parts):
+            out[w] = q / float(base)
+        return out
     cuts = sorted(draw(st.lists(st.integers(0, base), min_size=n - 1, max_size=n - 1)))
     parts = [b - a for a, b in zip([0] + cuts, cuts + [base])]
     return [p / float(base) for p in parts]
@@ -331,7 +344,10 @@ class History:
         arms = self.arms
         if omit is None:
             omit = draw(st.booleans())
-        if omit and len(arms) > 1:
+        if len(arms) > 40 and draw(st.integers(0, 3)):
+            # catalogue-sized arm lists: most batches are about a handful of arms, so that arms repeat within a batch
+            keep = draw(st.lists(st.sampled_from(arms), min_size=1, max_size=6, unique=True))
+        elif omit and len(arms) > 1:
             keep = draw(st.lists(st.sampled_from(arms), min_size=1, max_size=len(arms) - 1, unique=True))
         else:
             keep = arms
